@@ -97,6 +97,20 @@ Definition sgnQ (a : Q) : Q :=
   if Qle_bool a (- (1 # 1000000000000)) && negb (Qeq_bool a (- (1 # 1000000000000))) then (-1)
   else if Qle_bool (1 # 1000000000000) a && negb (Qeq_bool a (1 # 1000000000000)) then 1 else 0.
 
+(* round(x) / round(x, n) on an exact number: to the nearest multiple of 10^(-n), ties to the EVEN multiple (what sympy's
+   round does on a Rational: round(5/2) = 2, round(7/2) = 4, round(12350, -2) = 12400, round(12450, -2) = 12400) *)
+Definition round_half_even (q : Q) : Z :=
+  let f := Qfloor q in
+  match Qcompare (q - inject_Z f) (1 # 2) with
+  | Lt => f
+  | Gt => (f + 1)%Z
+  | Eq => if Z.even f then f else (f + 1)%Z
+  end.
+
+Definition roundQ (a : Q) (n : Z) : Q :=
+  if Z.leb 0 n then Qred (inject_Z (round_half_even (a * inject_Z (10 ^ n))) / inject_Z (10 ^ n))
+  else Qred (inject_Z (round_half_even (a / inject_Z (10 ^ (- n)))) * inject_Z (10 ^ (- n))).
+
 Definition stdIo (o : op) (args : list Q) : option Q :=
   match o, args with
   | OAdd, _ => Some (Qred (fold_right (fun a b => Qred (a + b)) 0 args))
@@ -130,7 +144,10 @@ Definition stdIo (o : op) (args : list Q) : option Q :=
   | OCeil, [a] => Some (inject_Z (Qceiling a))
   | OFun f, [a] => if String.eqb f "gamma" then gammaQ a
                    else if String.eqb f "sgn" then Some (sgnQ a)
+                   else if String.eqb f "Round" then Some (inject_Z (round_half_even a))
                    else Some (Qred (funQ f args))
+  | OFun f, [a; n] => if String.eqb f "Round" && is_int n && Z.leb (Z.abs (to_int n)) 40 then Some (roundQ a (to_int n))
+                      else Some (Qred (funQ f args))
   | OFun f, _ => Some (Qred (funQ f args))
   | _, _ => None
   end.
